@@ -674,12 +674,13 @@ def run(ck: Check) -> None:
             return
         hits.sort(key=lambda x: small_key(x[0]["spec"]))
         r, why = hits[0]
-        ck.report(sig_key, f"{title}: {why} [{len(hits)} scenarios; smallest: world={r['spec']['world']} num_trainers_per_group={r['spec']['gs']} "
+        nscen = len({x[0]["i"] for x in hits})
+        ck.report(sig_key, f"{title}: {why} [{nscen} scenarios; smallest: world={r['spec']['world']} num_trainers_per_group={r['spec']['gs']} "
                   f"communicate_params={r['spec']['cp']} {r['spec']['cdtype']} {r['spec']['opt']} presence={r['spec']['presence']}]",
                   {"kind": "property-fails", "spec": r["spec"], "mode": r["mode"], "input_signature": {k: r["sig"][k] for k in ("owners", "starving_steps", "starves", "lazy_mesh")},
                    "checker": {k: r.get(k) for k in ("values_ok", "gathers_ok", "creations_ok", "nohang", "agree")},
                    "hung": r.get("hung"), "hangs": r.get("hangs"), "steps_completed_per_rank": r.get("nsteps_done"), "logs_head": r.get("logs_short"),
-                   "n_scenarios": len(hits), "predicate": "C06_checkb (values = reference on every rank after every step; equal gathers per group; equal creations; no hang)"})
+                   "n_scenarios": nscen, "predicate": "C06_checkb (values = reference on every rank after every step; equal gathers per group; equal creations; no hang)"})
 
     rep(SIG_STARVATION, f6_hits, "rank starvation desynchronises the all-gathers (a rank whose owned blocks all lack a gradient skips the group step)")
     rep(SIG_MESH, f7_hits, "state DeviceMeshes are created lazily by the owner only")
